@@ -827,6 +827,7 @@ fn block_on_next(out: usize, once: bool) {
             Poll::Ready(Some(v)) => {
                 ev("out", out as i64, v as i64);
                 w().outs[out].outputs.push(v);
+                w().outs[out].depth_dirty = false;
                 break;
             }
             Poll::Ready(None) => {
@@ -1354,6 +1355,17 @@ pub fn exec_op(op: &Op) {
         OpKind::Next { out } => block_on_next(*out, false),
         OpKind::PollNext { out } => block_on_next(*out, true),
         OpKind::DropOut { out } => drop_out(*out),
+        OpKind::SetDepth { out, depth } => {
+            let world = w();
+            if *out < world.outs.len() {
+                if let Some(ps) = world.outs[*out].stream.as_mut() {
+                    ps.set_backpressure_depth(*depth);
+                    world.outs[*out].depth = *depth;
+                    world.outs[*out].depth_dirty = true;
+                    world.cover.depth_changes += 1;
+                }
+            }
+        }
         OpKind::DropObj { o } => drop_table_ref(*o),
         OpKind::OpenGate { g } => gate_open(*g),
         OpKind::Poke { g } => gate_poke(*g),
